@@ -61,16 +61,16 @@ var goroutineHdr = regexp.MustCompile(`^goroutine (\d+) [^\[\n]*\[([^\],]+)`)
 
 // parkedStates are wait reasons from which a goroutine cannot leave by itself.
 var parkedStates = map[string]bool{
-	"sync.Cond.Wait":       true,
-	"chan receive":         true,
-	"chan send":            true,
-	"select":               true,
-	"semacquire":           true,
-	"sync.Mutex.Lock":      true,
-	"sync.RWMutex.Lock":    true,
-	"sync.RWMutex.RLock":   true,
-	"sync.WaitGroup.Wait":  true,
-	"select (no cases)":    true,
+	"sync.Cond.Wait":          true,
+	"chan receive":            true,
+	"chan send":               true,
+	"select":                  true,
+	"semacquire":              true,
+	"sync.Mutex.Lock":         true,
+	"sync.RWMutex.Lock":       true,
+	"sync.RWMutex.RLock":      true,
+	"sync.WaitGroup.Wait":     true,
+	"select (no cases)":       true,
 	"chan receive (nil chan)": true,
 }
 
@@ -202,6 +202,8 @@ type hListener struct {
 	info *dnsserver.ServerInfo
 
 	limited net.Listener
+
+	closeBegunByPlan bool // controller only
 
 	// guarded by m.mu
 	closed     bool
@@ -428,6 +430,7 @@ type mstate struct {
 
 type mev struct {
 	Adm  bool   `json:"admit"`
+	Opt  bool   `json:"only_if_accepting,omitempty"`
 	Lo   int    `json:"lo"`
 	Hi   int    `json:"hi"`
 	Desc string `json:"desc"`
@@ -468,12 +471,16 @@ func explore(pre []mstate, evs []mev, stop, resume int) (finals []mstate) {
 			}
 			nx := st
 			if evs[j].Adm {
-				if !st.Acc || st.Count >= stop {
+				switch {
+				case st.Acc && st.Count < stop:
+					nx.Count++
+					if nx.Count >= stop {
+						nx.Acc = false
+					}
+				case evs[j].Opt:
+					// no effect
+				default:
 					continue
-				}
-				nx.Count++
-				if nx.Count >= stop {
-					nx.Acc = false
 				}
 			} else {
 				if st.Count <= 0 {
@@ -491,7 +498,7 @@ func explore(pre []mstate, evs []mev, stop, resume int) (finals []mstate) {
 		dfs(0, p)
 	}
 	for _, st := range []mstate{{0, true}, {0, false}} {
-		for c := 0; c <= stop+8; c++ {
+		for c := 0; c <= stop+40; c++ {
 			st.Count = c
 			if fin[st] {
 				finals = append(finals, st)
@@ -558,6 +565,7 @@ type sched struct {
 	ls     []*hListener
 	spares []*hListener
 	F      []mstate
+	FL     []mstate // the same history under the hypothesis that an Accept refused with net.ErrClosed keeps a slot
 	lastQ  int
 	rounds [][]action
 	feat   features
@@ -566,6 +574,7 @@ type sched struct {
 
 	midClose      bool
 	acceptOnClose bool
+	roundsLeft    int
 	suspects      []int // accepts that returned ErrClosed without having been admitted
 	quiescentPts  int
 }
@@ -777,7 +786,7 @@ func (s *sched) quiesce() (parked []*call, ok bool) {
 // stillParked confirms, on fresh snapshots taken later, that nothing moved.
 func (s *sched) stillParked(ws []*call, l1 int) bool {
 	for i := 0; i < 3; i++ {
-		time.Sleep(5 * time.Millisecond)
+		time.Sleep(3 * time.Millisecond)
 		snap := snapshot()
 		s.m.mu.Lock()
 		same := len(s.m.log) == l1
@@ -811,7 +820,7 @@ func (s *sched) gaugeSum() float64 {
 
 // collect builds the model events since the last quiescent point and checks
 // the results of the calls that ended.  The caller must be at a quiescent point.
-func (s *sched) collect(upTo int) (evs []mev) {
+func (s *sched) collect(upTo int) (evs, hyp []mev) {
 	m := s.m
 	r := s.r
 	type bad struct {
@@ -853,6 +862,7 @@ func (s *sched) collect(upTo int) (evs []mev) {
 					bads = append(bads, bad{"limiter:accept-failed-on-open-listener", "Accept returned net.ErrClosed although nobody closed its listener", c})
 				default:
 					s.suspects = append(s.suspects, c.ID)
+					hyp = append(hyp, mev{Adm: true, Opt: true, Lo: c.begin, Hi: c.end, Desc: fmt.Sprintf("accept#%d refused with ErrClosed", c.ID)})
 					if c.parkedAtQ {
 						s.feat.lcloseWaiter = true
 						r.Bucket("limiter_waiters_released_by_listener_close", 1)
@@ -890,7 +900,7 @@ func (s *sched) collect(upTo int) (evs []mev) {
 	if len(bads) > 0 {
 		s.abandon("bad accept result")
 	}
-	return evs
+	return evs, hyp
 }
 
 // settle waits for the quiescent point after a round and evaluates it.
@@ -939,16 +949,18 @@ func (s *sched) settle() {
 		}
 
 		// (2) every order of the overlapping operations, against the model
-		evs := s.collect(l1)
+		evs, hyp := s.collect(l1)
 		if s.dead {
 			return
 		}
 		var finals []mstate
-		if len(evs) > 18 {
+		if len(evs)+len(hyp) > 18 {
 			r.Bucket("limiter_rounds_too_large_for_model", 1)
 			finals = []mstate{{truth, true}, {truth, false}}
+			s.FL = nil
 		} else {
 			finals = explore(s.F, evs, s.Stop, s.Resume)
+			s.FL = explore(s.FL, append(append([]mev(nil), evs...), hyp...), s.Stop, s.Resume)
 		}
 		if len(finals) == 0 {
 			r.Violation("limiter:accepted-while-stopped",
@@ -999,23 +1011,22 @@ func (s *sched) settle() {
 		}
 
 		// (5) bounded progress
-		allAcc := true
+		anyAcc, allAcc := false, true
 		var notAcc []mstate
 		for _, f := range s.F {
-			if !f.Acc {
+			if f.Acc {
+				anyAcc = true
+			} else {
 				allAcc = false
 				notAcc = append(notAcc, f)
 			}
 		}
-		if len(wOpen) == 0 {
+		if len(wOpen) == 0 || !anyAcc {
+			// nobody waits, or every explanation of the history says "stopped"
 			return
 		}
-		if !allAcc {
-			// consistent with a stopped limiter; that is then the state
-			s.F = notAcc
-			return
-		}
-		// The model says: accepting, capacity c >= 1, and w accepts wait.
+		// Some (allAcc: every) explanation of the history says: accepting with
+		// capacity c >= 1, and w accepts wait on open listeners.
 		if !s.stillParked(wOpen, l1) {
 			r.Bucket("limiter_progress_rechecks", 1)
 			continue
@@ -1024,7 +1035,8 @@ func (s *sched) settle() {
 		want := min(capacity, len(wOpen))
 		// Diagnose: any Broadcast makes every waiter look at the counter again
 		// without changing it.  Closing an unused listener of the same limiter
-		// does exactly that.
+		// does exactly that.  A waiter that proceeds now could have proceeded
+		// before (nothing was released in between): its wake-up was lost.
 		s.nudge()
 		parked2, ok := s.quiesce()
 		if !ok {
@@ -1042,27 +1054,41 @@ func (s *sched) settle() {
 		m.mu.Unlock()
 		released := len(wOpen) - len(still)
 		wit := map[string]any{
-			"model_before_round": pre, "operations_of_round": evs,
-			"waiting_accepts": ids(wOpen), "count": truth, "capacity": capacity,
-			"must_proceed": want, "proceeded": 0,
+			"model_before_round": pre, "operations_of_round": evs, "model_at_quiescent_point": finals,
+			"waiting_accepts": ids(wOpen), "open_plus_pending": truth, "capacity": capacity,
+			"must_proceed_if_accepting": want, "proceeded": 0,
 			"proceeded_after_diagnostic_broadcast": released,
-			"goroutine_state_of_waiters": "parked (two stop-the-world snapshots, no event in between)",
+			"goroutine_state_of_waiters":           "parked in every one of 4 stop-the-world goroutine dumps taken over >= 9 ms, no event in between",
 		}
-		if released >= want {
+		if released > 0 {
 			r.Violation("limiter:waiter-left-parked-after-resume",
-				fmt.Sprintf("stop=%d resume=%d: the limiter is accepting with capacity %d and %d accept(s) wait on open listeners, "+
-					"but none of them proceeds; they proceed as soon as anything broadcasts on the condition variable (wake-up lost, counter state correct)",
-					s.Stop, s.Resume, capacity, len(wOpen)),
+				fmt.Sprintf("stop=%d resume=%d: open+pending is %d (capacity %d), %d accept(s) wait on open listeners and stay parked at a quiescent point; "+
+					"%d of them proceed as soon as something broadcasts on the condition variable although nothing was released in between "+
+					"(the limiter was accepting, the wake-up was lost)",
+					s.Stop, s.Resume, truth, capacity, len(wOpen), released),
 				s.witness(wit))
 			r.Bucket("limiter_lost_wakeups_observed", 1)
-			continue // re-evaluate: the admissions after the broadcast are new events
+			continue // the admissions after the broadcast are new events
+		}
+		if !allAcc {
+			// every waiter looked at the counter and went back to sleep: stopped
+			s.F = notAcc
+			r.Bucket("limiter_ambiguous_state_resolved_by_broadcast", 1)
+			continue
 		}
 		key := "limiter:waiter-parked-with-capacity-after-broadcast"
-		what := "the limiter refuses waiting accepts although open+pending is below the stop threshold and at/below the resume threshold since it last stopped; a broadcast does not help (its counter differs from reality)"
-		if len(s.suspects) > 0 {
+		what := "the limiter refuses waiting accepts although open+pending is below the stop threshold and has been at/below the resume threshold since it last stopped; a broadcast does not help (its counter differs from reality)"
+		leakExplains := false
+		for _, f := range s.FL {
+			if !f.Acc && f.Count > truth {
+				leakExplains = true
+			}
+		}
+		if leakExplains {
 			key = "limiter:slot-kept-by-accept-on-closed-listener"
 			what = "after an Accept on a closed listener returned net.ErrClosed the limiter behaves as if that Accept still held a slot: " + what
 			wit["accepts_that_returned_errclosed_without_admission"] = s.suspects
+			wit["model_if_those_accepts_kept_their_slot"] = s.FL
 		}
 		r.Violation(key, what, s.witness(wit))
 		s.abandon(key)
@@ -1198,10 +1224,14 @@ func (s *sched) randomRound() []action {
 				}
 			}
 		default: // listener close
-			if s.midClose && len(v.openLs) >= 2 {
+			if s.midClose && (len(v.openLs) >= 2 || (len(v.openLs) == 1 && s.roundsLeft <= 3)) {
 				l := v.openLs[rng.IntN(len(v.openLs))]
-				if !usedL[l] {
+				if len(pend) > 0 && rng.IntN(2) == 0 {
+					l = pend[rng.IntN(len(pend))] // a listener with a pending inner accept
+				}
+				if !usedL[l] && s.ls[l].closeBegunByPlan == false {
 					usedL[l] = true
+					s.ls[l].closeBegunByPlan = true
 					acts = append(acts, action{Kind: "listener-close", L: l})
 					s.feat.lcloseMid = true
 					continue
@@ -1274,7 +1304,13 @@ func (s *sched) probe() {
 		return
 	}
 	p := s.addListener()
-	for i := 0; i < s.Stop+2; i++ {
+	variant := s.rng.IntN(3)
+	nDial := s.Stop + 2
+	if variant == 2 {
+		// the last admitted accept stays pending in the wrapped listener
+		nDial = s.Stop - 1
+	}
+	for i := 0; i < nDial; i++ {
 		s.m.dial(p)
 	}
 	for i := 0; i < s.Stop+2 && !s.dead; i++ {
@@ -1284,16 +1320,22 @@ func (s *sched) probe() {
 		return
 	}
 	v := s.view()
-	if len(v.open) != s.Stop || v.parked != 2 {
+	switch {
+	case variant != 2 && len(v.open) == s.Stop && v.parked == 2:
+		s.r.Bucket("limiter_probes_full_then_two_waiting", 1)
+	case variant == 2 && len(v.open) == s.Stop-1 && len(v.pendingL) == 1 && v.parked == 2:
+		s.r.Bucket("limiter_probes_full_with_pending_then_two_waiting", 1)
+	default:
 		// every deviation has already been reported by settle with its own key
 		s.r.Bucket("limiter_probe_unexpected_shape", 1)
-	} else {
-		s.r.Bucket("limiter_probes_full_then_two_waiting", 1)
 	}
-	if s.rng.IntN(2) == 0 {
+	switch variant {
+	case 0, 2:
+		// close the listener under the waiters (and under the pending accept)
 		s.runRound(action{Kind: "listener-close", L: p.idx})
 		s.drain()
-	} else {
+	default:
+		// close the connections one by one: the waiters must get in
 		s.drain()
 		s.runRound(action{Kind: "listener-close", L: p.idx})
 	}
@@ -1372,6 +1414,7 @@ func runSchedule(r *vkit.Run, idx int, lc *logCounter) {
 	s := &sched{r: r, rng: rng, Idx: idx, Stop: p[0], Resume: p[1], K: 1 + (idx/len(pairs))%3}
 	s.m = newMonitor(s.Stop)
 	s.F = []mstate{{0, true}}
+	s.FL = []mstate{{0, true}}
 	s.midClose = rng.IntN(100) < 40
 	s.acceptOnClose = s.midClose && rng.IntN(100) < 50
 	lim, err := connlimiter.New(&connlimiter.Config{Logger: slog.New(lc), Stop: uint64(s.Stop), Resume: uint64(s.Resume)})
@@ -1391,6 +1434,7 @@ func runSchedule(r *vkit.Run, idx int, lc *logCounter) {
 	}()
 	nRounds := 6 + rng.IntN(12)
 	for i := 0; i < nRounds && !s.dead; i++ {
+		s.roundsLeft = nRounds - i
 		s.runRound(s.randomRound()...)
 	}
 	s.drain()
@@ -1413,7 +1457,7 @@ func runSchedule(r *vkit.Run, idx int, lc *logCounter) {
 
 func limiterMonitor(r *vkit.Run) {
 	lc := &logCounter{}
-	n := r.N(420, 5000)
+	n := r.N(560, 6000)
 	for i := 0; i < n; i++ {
 		runSchedule(r, i, lc)
 	}
